@@ -164,7 +164,7 @@ def collect(run, quick, rng, N):
                          "N": 6, "timeout": 200, "burn_names": burn})
             subjects[sid] = {"fam": fam}
     # the same set of closed forms in another ORDER was analysed before in the same process
-    for i, fam in enumerate(fams[:30]):
+    for i, fam in enumerate(fams[:(12 if quick else 40)]):
         names = list(fam)
         if len(names) < 2:
             continue
